@@ -121,6 +121,8 @@ def run(ctx):
     incon = R.get("inconclusive") or []
     if incon:
         ctx.notes["inconclusive_scenarios"] = incon[:10]
+        for x in incon[:3]:
+            log("scenario not judged: " + x[:700])
     if len(incon) > max(3, R["scenarios"] // 5):
         raise Inconclusive("%d of %d scenarios could not be judged, e.g. %s" % (len(incon), R["scenarios"], incon[0][:600]))
     if R["traces"] == 0 or R["fins"] == 0:
